@@ -1251,6 +1251,26 @@ class Evaluator:
                 n = f.nodes[e]
                 if n["k"] == "DeclStmt":
                     for d in n.get("decls", []):
+                        if d.get("init") is not None and d.get("static"):
+                            # a function-local static is initialised by the first call that reaches it and keeps its value: the
+                            # values live in `statics` of the fold's root, which a rule may carry from one fold to the next
+                            root_ = self
+                            while getattr(root_, "_parent", None) is not None:
+                                root_ = root_._parent
+                            if not hasattr(root_, "statics") or root_.statics is None:
+                                root_.statics = {}
+                            sk_ = (f.mn, d["name"])
+                            if sk_ in root_.statics:
+                                self.env[d["name"]] = root_.statics[sk_]
+                                continue
+                            try:
+                                root_.statics[sk_] = self.ev(d["init"])
+                                self.env[d["name"]] = root_.statics[sk_]
+                                continue
+                            except Thrown:
+                                raise
+                            except Unknown:
+                                pass            # (an aggregate or an object: handled like any other local below)
                         if d.get("init") is not None:
                             i0_ = f.strip(d["init"])
                             if i0_ is not None and i0_["k"] == "CXXConstructExpr" and (d.get("ct") or "").replace("const ", "").strip() in self.prog.records and \
